@@ -101,7 +101,7 @@ PROPS = {
             "RC2: RC2(wcnf).compute() returns None iff no world satisfies the hard clauses, otherwise a model of them (pysat, trusted)",
             "GVC: get_violated_conditional(model, rc2.cost, ignore) = the not-ignored keys falsified by the model's world (bounded: module pure)",
             "BLOCK: the clauses of exclude_violated(v), added together, remove exactly the worlds falsifying every conditional of v (bounded: module pure)",
-            "Inv_es: the clause lists of every base key and of the query denote ver / fal / nf of the conditionals (C15; bounded: module c15)",
+            "TB-tac: goal2intcnf(tseitin(F)) is a clause list denoting the models of F (the only assumption inside belief_base_to_cnf / query_to_cnf, whose wiring is proved; bounded: module c15)",
             "termination of the enumeration loops is not proved",
             "OptModel (TB-z3): after check() == sat, Optimize.model() denotes a world of the hard set such that no world of the hard set violates a strict subset of the soft constraints it violates (bounded: module mcsz3 compares get_all_xi_i with brute force)",
             "L3: the recursion over minimal correction sets (WREC) decides the preferred-structure definition of System W (Komo/Beierle 2022)",
@@ -125,7 +125,7 @@ PROPS = {
             "RC2: RC2(wcnf).compute() returns None iff no world satisfies the hard clauses, otherwise a model of them (pysat, trusted)",
             "GVC: get_violated_conditional(model, rc2.cost, ignore) = the not-ignored keys falsified by the model's world (bounded: module pure)",
             "BLOCK: the clauses of exclude_violated(v), added together, remove exactly the worlds falsifying every conditional of v (bounded: module pure)",
-            "Inv_es: the clause lists of every base key and of the query denote ver / fal / nf of the conditionals (C15; bounded: module c15)",
+            "TB-tac: goal2intcnf(tseitin(F)) is a clause list denoting the models of F (the only assumption inside belief_base_to_cnf / query_to_cnf, whose wiring is proved; bounded: module c15)",
             "termination of the enumeration loops is not proved",
             "OptModel (TB-z3) as for C03",
             "L4: the recursion over minimum-cardinality correction sets (LREC: exists a verifying candidate that beats all falsifying ones) decides the lexicographic definition (Haldimann/Beierle 2022)",
@@ -144,7 +144,7 @@ PROPS = {
         trusted=TB + ["TB-ifml", "TB-sat", "TB-time"],
         assumed=[
             "MCS: minimal_correction_subsets enumerates the inclusion-minimal falsified key sets over the hard clauses' worlds (bounded: modules pure, c15)",
-            "Inv_es: the clause lists of every base key and of the query denote ver / fal / nf (C15; bounded)",
+            "TB-tac: goal2intcnf(tseitin(F)) is a clause list denoting the models of F (bounded: module c15); the wiring of belief_base_to_cnf / query_to_cnf is proved",
             "L5: the constraint system over minimal correction sets has a solution violating the query iff some c-representation does (Beierle et al. 2021, von Berg et al. 2024)",
             "L-sumperm: a finite sum does not depend on the order in which a correction set is listed",
             "aliasing: different entries of the epistemic state hold different container objects",
